@@ -10,6 +10,9 @@ TEST_CMD = "cd /repo && /venv/bin/python -m pytest -ra -q -p no:cacheprovider --
 
 # id -> (level, technique, text, note, design_ref)
 CHECKS = {
+ "C18": ("model_checking", "TLC case machine + loader state machine spec/Data.tla; every case / history replayed on split_dataset, DataLoader, one_hot_encode",
+         "all (n, fractions, shuffle) splits up to MaxN with floor-rule sizes, partition, pairing, order; all DataLoader histories (iter/next/len/getitem) for every (n, batch size) with and without transform; all label vectors",
+         "dyadic fractions; set membership of a split left open", "5/C18"),
  "C20": ("model_checking", "TLC on spec/Trainer.tla (safety + liveness) and TLC trace validation (spec/TrainerTrace.tla) of executions recorded from the real Trainer",
          "every recorded Trainer.fit/test run over the (E, NB, NV, NT, evaluator, callbacks) grid must be a behaviour of the specification; corrupted traces must be rejected; history keys/lengths, epoch-loss mean and Evaluator accuracy compared by the driver",
          "observation through proxies and wrappers outside the repository; one model architecture", "5/C20"),
